@@ -28,7 +28,8 @@ RULE = ("Engine 'differential': a drawn loader computation (asnumpy / average / 
         "threads; task A is parked at its k-th interpreter-level schedule point (sys.settrace call / return / line event of an "
         "acryo frame), task B runs to completion, A resumes; k is enumerated over every line-level point for all four models "
         "(cold lru caches) and strided for drawn cases (rotations, wedges, mixed operations, warm caches); both results "
-        "must equal the sequential ones bitwise. Engine 'stress' (thorough only): real preemption with a 1e-6 s switch interval. "
+        "must equal the sequential ones bitwise; the same with the loader's own lazy per-molecule tasks (rows of construct_dask / "
+        "construct_landscape, align tasks of construct_mapping_tasks; numpy and chunked tomograms). Engine 'stress' (thorough only): real preemption with a 1e-6 s switch interval. "
         "Non-trivial = >= 2 workers/threads with >= 2 tasks sharing one model, a drawn order different from "
         "submission order, or a fractional limit / upsample > 1.")
 TOLERANCES = {"loads/align/score/landscape/apply": "bitwise", "average": "1e-6 * range (reduction order)"}
@@ -207,11 +208,8 @@ def _pkgdir():
     return os.path.dirname(os.path.abspath(acryo.__file__))
 
 
-def judge_preempt(d):
-    """Two per-molecule tasks sharing one model; task A is preempted once, at an interpreter-level schedule point (call / return
-    / line event of an acryo frame), task B runs to completion, A resumes. Enumerated over the preemption points
-    d['offset'], d['offset'] + d['stride'], ... of A. Each thread's result must equal the sequential one."""
-    out = []
+def _preempt_setup_model(d):
+    """returns (make, want, ops): make() -> (fn_a, fn_b) on a fresh shared model; want = sequential results."""
     shape = tuple(d["shape"])
     Model = get_model(d["model"])
     tmpl = gen.smooth_noise(d["seed"], shape, sigma=0.9)
@@ -237,17 +235,85 @@ def judge_preempt(d):
     ops = [d["ops"][i % len(d["ops"])] for i in range(2)]
     if d["rots"]:
         ops = [o if o != "score" else "align" for o in ops]
+    seq_model = Model(tmpl, **kw)
+    want = [task(seq_model, op, im, q) for op, im, q in zip(ops, imgs, quats)]
+
+    def make():
+        model = Model(tmpl, **kw)
+        return (lambda: task(model, ops[0], imgs[0], quats[0])), (lambda: task(model, ops[1], imgs[1], quats[1]))
+
+    return make, want, ops
+
+
+def _preempt_setup_loader(d):
+    """The two tasks are the loader's own lazy per-molecule computations (rows 0 and 1 of construct_dask /
+    construct_landscape / the align tasks of iter_mapping_tasks), each computed with the synchronous scheduler in its thread."""
+    from acryo import SubtomogramLoader, Molecules
+    import dask.array as da
+
+    shape = tuple(d["shape"])
+    S = max(shape) + 8
+    tomo = gen.smooth_noise(d["seed"], (S, S, 2 * S), sigma=0.9)
+    tomo[:, :, S:] = tomo[:, :, S:] * 3.0 + 1.0
+    pos = np.array([[S / 2 + 0.3, S / 2 - 0.2, i * S + S / 2 + 0.4] for i in range(2)])
+    qs = d.get("quats") or [[0.0, 0.0, 0.0]]
+    R = Rotation.from_rotvec(np.array([qs[i % len(qs)] for i in range(2)]))
+    Model = get_model(d["model"])
+    tmpl = gen.smooth_noise(d["seed"] + 9, shape, sigma=0.9)
+    kw = {}
+    if d["rots"]:
+        kw["rotations"] = Rotation.from_rotvec(np.array([[0.0, 0.0, 0.0]] + d["rots"]))
+    if d.get("tilt") is not None:
+        kw["tilt"] = tuple(d["tilt"])
+    scale = d["scale"]
+    op = d["ops"][0]
+
+    def lazies():
+        img = tomo if not d.get("chunked") else da.from_array(tomo, chunks=(S, S // 2 + 1, S // 2 + 3))
+        loader = SubtomogramLoader(img, Molecules(pos * scale, R), order=d["order"], scale=scale, output_shape=shape)
+        if op == "ld-load":
+            arr = loader.construct_dask()
+            return [arr[0], arr[1]]
+        if op == "ld-landscape":
+            arr = loader.construct_landscape(tmpl, max_shifts=d["lmax"] * scale, alignment_model=Model, **kw)
+            return [arr[0], arr[1]]
+        model = Model(tmpl, **kw)
+        tasks = loader.construct_mapping_tasks(model.align, (d["lmax"],) * 3,
+                                               var_kwarg=dict(quaternion=loader.molecules.quaternion(), pos=loader.molecules.pos / scale))
+        tl = list(tasks)
+        return [tl[0], tl[1]]
+
+    def run(lz):
+        r = lz.compute(scheduler="synchronous")
+        if hasattr(r, "shift"):
+            return np.concatenate([[r.label], r.shift, r.quat, [r.score]]).astype(np.float64)
+        return np.asarray(r, dtype=np.float64)
+
+    want = [run(lz) for lz in lazies()]
+
+    def make():
+        la, lb = lazies()
+        return (lambda: run(la)), (lambda: run(lb))
+
+    return make, want, [op, op]
+
+
+def judge_preempt(d):
+    """Two per-molecule tasks sharing one model; task A is preempted once, at an interpreter-level schedule point (call / return
+    / line event of an acryo frame), task B runs to completion, A resumes. Enumerated over the preemption points
+    d['offset'], d['offset'] + d['stride'], ... of A. Each thread's result must equal the sequential one."""
+    out = []
     events = ("call", "return", "line") if d["gran"] == "line" else ("call", "return")
     pre = sched.PreemptOnce(_pkgdir(), events=events)
-    tag = f"{d['model']} ops={ops} K={1 + len(d['rots'])} shape={shape} gran={d['gran']} cold={d['cold']}"
+    loader_level = d["ops"][0].startswith("ld-")
     with warnings.catch_warnings():
         warnings.simplefilter("ignore")
-        seq_model = Model(tmpl, **kw)
-        want = [task(seq_model, op, im, q) for op, im, q in zip(ops, imgs, quats)]
+        make, want, ops = (_preempt_setup_loader if loader_level else _preempt_setup_model)(d)
+        tag = f"{d['model']} ops={ops} K={1 + len(d['rots'])} shape={tuple(d['shape'])} gran={d['gran']} cold={d['cold']}"
         # number of schedule points of task A (cold caches: the longest path)
         sched.clear_lru_caches()
-        m0 = Model(tmpl, **kw)
-        _, _, st0 = pre.run(lambda: task(m0, ops[0], imgs[0], quats[0]), lambda: None, None)
+        fa, _ = make()
+        _, _, st0 = pre.run(fa, lambda: None, None)
         npoints = st0["count"]
         targets = list(range(1 + d["offset"] % max(1, d["stride"]), npoints + 1, max(1, d["stride"])))
         d["_npoints"], d["_nrun"] = npoints, len(targets)
@@ -255,8 +321,8 @@ def judge_preempt(d):
         for t in targets:
             if d["cold"]:
                 sched.clear_lru_caches()
-            model = Model(tmpl, **kw)
-            ra, rb, stt = pre.run(lambda: task(model, ops[0], imgs[0], quats[0]), lambda: task(model, ops[1], imgs[1], quats[1]), t)
+            fa, fb = make()
+            ra, rb, stt = pre.run(fa, fb, t)
             for i, (status, val) in enumerate((ra, rb)):
                 if status == "err":
                     import traceback
@@ -400,12 +466,18 @@ def all_two_thread_schedules(tier):
 def preempt_cases(draw, stride_max=40):
     d = draw(base_case())
     d["shape"] = draw(gen.box_shapes(5, 8))
-    d.update({"ops": draw(st.lists(st.sampled_from(["score", "align", "align", "landscape"]), min_size=1, max_size=2)),
+    ops = draw(st.lists(st.sampled_from(["score", "align", "align", "landscape"]), min_size=1, max_size=2))
+    if draw(st.integers(0, 3)) == 0:
+        ops = [draw(st.sampled_from(["ld-load", "ld-landscape", "ld-align"]))]
+        d["chunked"] = draw(st.booleans())
+    d.update({"ops": ops,
               "quats": [draw(gen.rotvecs())["rv"] for _ in range(draw(st.integers(1, 2)))],
               "gran": draw(st.sampled_from(["call", "call", "line"])), "cold": draw(st.booleans()),
               "stride": draw(st.integers(1, stride_max)), "offset": draw(st.integers(0, 1000))})
     if len(d["rots"]) > 1:
         d["rots"] = d["rots"][:1]
+    if ops[0].startswith("ld-"):
+        d["stride"] = max(d["stride"], 8)  # a loader-level run costs ~75 ms (graph construction + dask overhead)
     return d
 
 
@@ -418,6 +490,14 @@ def all_preemption_points(tier):
                 for off in range(4):
                     yield {"model": model, "shape": shape, "seed": 3, "scale": 1.0, "order": 1, "rots": [], "tilt": None, "lmax": 1.0, "upsample": 1,
                            "ops": ops, "quats": [[0.0, 0.0, 0.3]], "gran": "line", "cold": True, "stride": 4, "offset": off}
+    # loader level: the loader's own lazy per-molecule tasks (loading + model call), numpy and chunked dask tomograms
+    for model in (["ZNCC"] if tier == "quick" else ["ZNCC", "NCC", "PCC", "FSC"]):
+        for op in ("ld-load", "ld-align") + (() if tier == "quick" else ("ld-landscape",)):
+            for chunked in (False, True):
+                for off in range(4):
+                    yield {"model": model, "shape": [6, 6, 6], "seed": 3, "scale": 1.37, "order": 1, "rots": [], "tilt": [-60.0, 60.0], "lmax": 1.0,
+                           "upsample": 1, "ops": [op], "quats": [[0.0, 0.0, 0.3], [0.2, 0.0, 0.0]], "gran": "call" if tier == "quick" else "line",
+                           "cold": True, "stride": 4, "offset": off, "chunked": chunked}
 
 
 @st.composite
